@@ -34,6 +34,23 @@ CHECKS = {
             'algorithms in both directions (Pair).',
             'deterministic simulation: on-path tamper fault injection grid, '
             'prefix-exact delivery oracle', 'DESIGN.md 4 C01'),
+    'C02': ('c02_wire_format',
+            'asyncssh in either role against RefPeer, an independent SSH '
+            'implementation written for this task (own negotiation, exchange '
+            'hash, RFC 4253 KDF, every PyCA-backed cipher/HMAC incl. etm/-96, '
+            'zlib, strict KEX), over drawn (kex, cipher, MAC, compression, '
+            'host key) and seeded segmentation down to 1-byte reads in both '
+            'directions; every emitted packet must decode under RefPeer\'s own '
+            'keys (length, alignment, padding >= 4, MAC/tag at the expected '
+            'sequence number), the handshake must complete, payload sequences '
+            'seen by each side must equal what the other sent (exactly once, '
+            'in order), echoed data lengths 0..32768 intact.',
+            COMMON_NOTE + ' RefPeer shares PyCA primitives with asyncssh and '
+            'its author with the oracle; umac, RSA kex, curve448 and ML-KEM '
+            'hybrids are not implemented by RefPeer.',
+            'deterministic simulation: differential run against an '
+            'independent reference implementation under seeded segmentation',
+            'DESIGN.md 4 C02'),
     'C03': ('c03_kex_binding',
             'Seeded exploration of handshakes between a real client and server '
             'with random preference sub-permutations over every non-GSS kex '
